@@ -600,6 +600,29 @@ Section Restore.
         destruct (dispatch Z SELF CLS j acc cv args) as [r|] end; eauto.
   Qed.
 
+  (* the KIND of value the replacement returns is no input of the dispatch: whatever the body does
+     (returns a plain value, None, an exception instance, a FUTURE OBJECT - ConstFuture / task /
+     batch item -, or raises), a convention that reaches it delivers exactly that; in particular a
+     future object returned as the result is never taken for the future the convention itself makes *)
+  Lemma probe_conv_result_as_is : forall i att acc who b c args who' recv b',
+    probe_conv i att acc who b c args = CReached who' recv b' -> who' = who /\ b' = b.
+  Proof.
+    intros i att acc who b c args who' recv b' H.
+    destruct (probe_conv_cases i att acc who b c args) as [E|[E|[r E]]]; rewrite E in H;
+      inversion H; auto.
+  Qed.
+
+  Lemma probe_conv_result_kind_irrelevant : forall i att acc who b b2 c args recv,
+    probe_conv i att acc who b c args = CReached who recv b ->
+    probe_conv i att acc who b2 c args = CReached who recv b2.
+  Proof.
+    intros i att acc who b b2 c args recv. unfold probe_conv.
+    destruct att; [|destruct (inst_unattached i) as [i'|]; [|destruct c; try discriminate]];
+      match goal with |- context [dispatch Z SELF CLS ?j acc ?cv args] =>
+        destruct (dispatch Z SELF CLS j acc cv args) as [r|] end;
+      intro H; inversion H; reflexivity.
+  Qed.
+
   Lemma probe_reaches_current : forall st t args cur cs,
     probe w st t args = RProbe cur cs ->
     cur = current w st t /\
